@@ -315,9 +315,8 @@ LastPanicIsOne == lastPanic \in recovered \cup {"nil"} /\ (recovered # {} => las
 StatusBounds == \A r \in sres : r[1] \in 0..(N * (Q + 1))
 StatusLast == \A r \in sres : r[2] \in {Panics[t] : t \in Tasks} \cup {"nil"}
 \* at rest (nothing internal enabled, context live): pending = accepted and not yet started
-RECURSIVE SumLens(_)
-SumLens(k) == IF k = 0 THEN 0 ELSE Len(buf[k]) + SumLens(k - 1)
-PendingNow == cnt + SumLens(N)
+SumLens[k \in 0..N] == IF k = 0 THEN 0 ELSE Len(buf[k]) + SumLens[k - 1]
+PendingNow == cnt + SumLens[N]
 AtRestExact == (ctx = "live" /\ ~ENABLED Internal /\ \A p \in Prods : ppc[p] \in {"idle", "innerParked"}) =>
                   PendingNow = Cardinality({t \in Accepted : started[t] = 0})
 TypeOK == /\ \A i \in Lanes : Len(buf[i]) <= Q
